@@ -1672,9 +1672,17 @@ CALLABLE_ASSUMPTIONS = {
     'centroid_func': 'the user-supplied centroid function obeys the property itself (each photutils centroid '
                      'function is its own obligation)',
     'self.gaussian_fit': 'evaluating a fitted astropy model returns a new array and writes to nothing',
-    'self.sigma_clip': {'text': 'astropy SigmaClip called with copy=False clips IN PLACE: it writes through its first '
-                                'argument and returns it (or a copy)', 'mut': [0], 'ret': 'alias',
-                        'when_kw': ('copy', False)},
+    'self.sigma_clip': {'text': 'astropy SigmaClip: with copy=False it clips IN PLACE (writes through its first argument '
+                                'and returns it or a copy); with copy absent/True it writes to nothing and returns a new '
+                                'array (dynamic scenarios Background2D*, background_estimators, ApertureStats)',
+                        'by_kw': 'copy',
+                        'cases': {False: {'text': '', 'mut': [0], 'ret': 'alias'},
+                                  'absent': {'text': '', 'ret': 'fresh'}, True: {'text': '', 'ret': 'fresh'}}},
+    'sigma_clip': {'text': 'an astropy SigmaClip passed as a parameter: same summary as self.sigma_clip', 'by_kw': 'copy',
+                   'cases': {False: {'text': '', 'mut': [0], 'ret': 'alias'}, 'absent': {'text': '', 'ret': 'fresh'},
+                             True: {'text': '', 'ret': 'fresh'}}},
+    'window': {'text': 'the user-supplied window function builds a new array from a shape', 'ret': 'fresh'},
+    'find_column_name': 'PSFPhotometry._find_column_name (a string helper passed as an argument) writes to nothing',
     'self.interpolator': {'text': 'evaluating a scipy RectBivariateSpline returns a new array and writes to nothing '
                                   '(table row scipy.interpolate.RectBivariateSpline.__call__ is probed)', 'ret': 'fresh'},
     'interp': {'text': 'GriddedPSFModel._calc_model_values: the cached objects are scipy RectBivariateSpline instances; '
@@ -1689,6 +1697,10 @@ SAFE_CLASSES = (
     'photutils.aperture.circle.CircularAperture', 'photutils.aperture.circle.CircularAnnulus',
     'photutils.aperture.bounding_box.BoundingBox',
     'photutils.detection.starfinder._StarFinderCatalog',      # own life-cycle obligation below
+    'photutils.utils.cutouts.CutoutImage',                    # own life-cycle obligation below
+    'photutils.detection.daofinder._DAOStarFinderCatalog',    # own life-cycle obligation below
+    'photutils.detection.irafstarfinder._IRAFStarFinderCatalog',   # own life-cycle obligation below
+    'photutils.utils.interpolation.ShepardIDWInterpolator',   # own life-cycle obligation below
 )
 # kind, module, name, methods, related dynamic scenarios (violation search), signatures that explain a rejection
 TARGETS = [
@@ -1710,6 +1722,63 @@ TARGETS = [
      ['psf_model_evaluation', 'psf_models'], [r'^psf_model']),
     ('methods', 'photutils.psf.image_models', 'ImagePSF', ['evaluate'],
      ['psf_model_evaluation', 'psf_models'], [r'^psf_model']),
+    # ---- round 5: helpers and input-handling code of the entry points of the dynamic sweep ----
+    ('function', 'photutils.utils._parameters', 'as_pair', None, ['Background2D', 'centroid_sources'], []),
+    ('function', 'photutils.utils.cutouts', '_overlap_slices', None, ['centroid_sources', 'utils_misc'], []),
+    ('function', 'photutils.utils._round', 'py2intround', None, ['centroid_quadratic'], []),
+    ('function', 'photutils.utils._moments', '_moments', None, ['StarFinder', 'SourceCatalog'], []),
+    ('function', 'photutils.utils._moments', '_moments_central', None, ['StarFinder', 'SourceCatalog'], []),
+    ('function', 'photutils.utils.footprints', 'circular_footprint', None, ['utils_misc'], []),
+    ('function', 'photutils.utils._stats', '_move_tuple_axes_last', None, ['background_estimators'], []),
+    ('function', 'photutils.psf.utils', '_interpolate_missing_data', None, ['extract_stars_epsf'], []),
+    ('function', 'photutils.psf.utils', '_validate_psf_model', None, ['PSFPhotometry'], []),
+    ('function', 'photutils.morphology.non_parametric', 'gini', None, ['utils_misc', 'SourceCatalog'], []),
+    ('function', 'photutils.segmentation.utils', '_make_binary_structure', None, ['detect_sources'], []),
+    ('function', 'photutils.segmentation.utils', 'make_2dgaussian_kernel', None, ['SourceCatalog'], []),
+    ('function', 'photutils.segmentation.detect', '_detect_sources', None, ['detect_sources', 'deblend_sources'], []),
+    ('function', 'photutils.segmentation.detect', 'detect_threshold', None, ['detect_threshold'], []),
+    ('function', 'photutils.psf.matching.fourier', 'resize_psf', None, ['psf_models'], []),
+    ('function', 'photutils.psf.matching.fourier', 'create_matching_kernel', None, ['psf_models'], []),
+    ('function', 'photutils.psf.matching.windows', '_radial_distance', None, ['psf_models'], []),
+    ('function', 'photutils.datasets.noise', 'apply_poisson_noise', None, ['noise'], []),
+    ('function', 'photutils.datasets.noise', 'make_noise_image', None, ['noise'], []),
+    ('class', 'photutils.psf.matching.windows', 'SplitCosineBellWindow', None, ['psf_models'], []),
+    ('class', 'photutils.background.local_background', 'LocalBackground', None, ['LocalBackground', 'PSFPhotometry'], []),
+    ('class', 'photutils.background.interpolators', 'BkgZoomInterpolator', None, ['Background2D'], []),
+    ('class', 'photutils.utils.interpolation', 'ShepardIDWInterpolator', None, ['utils_misc', 'Background2D'], []),
+    ('class', 'photutils.background.core', 'MeanBackground', None, ['background_estimators', 'Background2D'], []),
+    ('class', 'photutils.background.core', 'MedianBackground', None, ['background_estimators', 'Background2D'], []),
+    ('class', 'photutils.background.core', 'ModeEstimatorBackground', None, ['background_estimators', 'Background2D'], []),
+    ('class', 'photutils.background.core', 'SExtractorBackground', None, ['background_estimators', 'Background2D'], []),
+    ('class', 'photutils.background.core', 'BiweightLocationBackground', None, ['background_estimators', 'Background2D'], []),
+    ('class', 'photutils.background.core', 'StdBackgroundRMS', None, ['background_estimators', 'Background2D'], []),
+    ('class', 'photutils.background.core', 'MADStdBackgroundRMS', None, ['background_estimators', 'Background2D'], []),
+    ('class', 'photutils.background.core', 'BiweightScaleBackgroundRMS', None, ['background_estimators', 'Background2D'], []),
+    ('class', 'photutils.detection.core', '_StarFinderKernel', None, ['DAOStarFinder', 'IRAFStarFinder'], []),
+    ('class', 'photutils.detection.daofinder', '_DAOStarFinderCatalog', None, ['DAOStarFinder'], []),
+    ('class', 'photutils.detection.irafstarfinder', '_IRAFStarFinderCatalog', None, ['IRAFStarFinder'], []),
+    ('methods', 'photutils.detection.core', 'StarFinderBase', ['_find_stars'], ['DAOStarFinder', 'IRAFStarFinder', 'StarFinder'], []),
+    ('methods', 'photutils.detection.daofinder', 'DAOStarFinder', ['_get_raw_catalog'], ['DAOStarFinder'], []),
+    ('methods', 'photutils.detection.irafstarfinder', 'IRAFStarFinder', ['_get_raw_catalog'], ['IRAFStarFinder'], []),
+    ('methods', 'photutils.background.background_2d', 'Background2D', ['__init__'],
+     ['Background2D', 'Background2D_blocks', 'nddata_entry_points'], [r'^Background2D']),
+    ('methods', 'photutils.background.background_2d', 'Background2D',
+     ['_validate_array', '_combine_input_masks', '_combine_all_masks'], ['Background2D', 'Background2D_blocks'], [r'^Background2D']),
+    ('methods', 'photutils.aperture.stats', 'ApertureStats',
+     ['_validate_array', '_validate_aperture', '_data_cutouts', '_make_aperture_cutouts'], ['ApertureStats'], []),
+    ('methods', 'photutils.aperture.core', 'PixelAperture', ['do_photometry', 'area_overlap', '_define_patch_params'],
+     ['aperture_photometry', 'aperture_plotting', 'RadialProfile'], []),
+    ('methods', 'photutils.segmentation.catalog', 'SourceCatalog',
+     ['_validate_array', '_validate_segment_img', '_data_cutouts', '_prepare_cutouts', '_moment_data_cutouts',
+      '_calc_kron_radius'], ['SourceCatalog'], []),
+    ('methods', 'photutils.segmentation.core', 'Segment', ['data', 'data_ma', 'make_cutout', '__array__'],
+     ['SegmentationImage'], []),
+    ('methods', 'photutils.psf.photometry', 'PSFPhotometry',
+     ['_validate_array', '_validate_init_params', '_get_aper_fluxes', '_get_invalid_positions'],
+     ['PSFPhotometry', 'IterativePSFPhotometry', 'nddata_entry_points'], []),
+    ('methods', 'photutils.psf.image_models', 'ImagePSF', ['_validate_data', '__init__'], ['psf_models', 'psf_model_evaluation'], []),
+    ('methods', 'photutils.psf.gridded_models', 'GriddedPSFModel', ['_validate_data'], ['psf_models'], []),
+    ('methods', 'photutils.psf.epsf_stars', 'EPSFStar', ['__init__'], ['extract_stars_epsf'], []),
     ('class', 'photutils.profiles.radial_profile', 'RadialProfile', None, ['RadialProfile'], [r'^ProfileBase', r'^RadialProfile:']),
     ('class', 'photutils.profiles.curve_of_growth', 'CurveOfGrowth', None, ['CurveOfGrowth'], [r'^ProfileBase', r'^CurveOfGrowth:']),
     ('class', 'photutils.detection.starfinder', '_StarFinderCatalog', None, ['StarFinder'], [r'^StarFinder.find_stars:data']),
@@ -1719,8 +1788,38 @@ TARGETS = [
 ]
 
 
+# parameters that are not among the kinds of object the property protects (DESIGN section 6, note)
+UNPROTECTED = {'Background2D': ('bkg_estimator', 'bkgrms_estimator', 'sigma_clip', 'interpolator')}
+
+# candidates examined and NOT expressible as a static obligation: they stay dynamic-only (recorded in the
+# evidence with the construct that stops the translator or the abstraction that makes the analysis reject)
+DYNAMIC_ONLY = {
+    'photutils.detection.peakfinder.find_peaks': 'analysis rejects: `peak_values = data[y_peaks, x_peaks]` (fancy indexing = copy) is abstracted as a possible view, then `peak_values <<= unit`',
+    'photutils.segmentation.utils._mask_to_mirrored_value': 'analysis rejects: `mirror_mask = replace_mask[ymirror, xmirror]` (fancy indexing = copy) abstracted as a possible view, then `mirror_mask |= ...`',
+    'photutils.psf.utils.fit_2dgaussian / fit_fwhm': 'builds a PSF model and runs PSFPhotometry (constructor of an unanalysed class, fitter)',
+    'photutils.psf.utils._get_psf_model_params': 'assignment expression (:=)',
+    'photutils.datasets.images.make_model_image / ModelImageMixin.make_model_image': 'evaluates the user model (`model(...)`, dynamic dispatch into astropy), tqdm wrapper',
+    'photutils.datasets.images._model_shape_from_bbox': 'astropy `model.bounding_box()` dispatch',
+    'photutils.morphology.core.data_properties': 'constructs SegmentationImage + SourceCatalog (classes not analysed as a whole); hand summary used by centroid_2dg',
+    'photutils.segmentation.deblend.deblend_sources': 'constructs _DeblendParams / _SingleSourceDeblender objects, multiprocessing, skimage watershed',
+    'photutils.aperture.photometry.aperture_photometry': 'recursive call for NDData input, isinstance-driven dispatch on aperture lists / sky apertures with a WCS',
+    'photutils.utils._stats._apply_bottleneck': 'higher-order: the bottleneck function is a parameter',
+    'photutils.background.interpolators.BkgIDWInterpolator / Background2D._interpolate_grid / _filter_grid': 'calls an interpolator object stored in a local variable (`interp_func(...)`)',
+    'photutils.utils.depths.ImageDepth': 'scipy KDTree.query_pairs on random aperture positions, nested retry loops with rng state',
+    'Background2D._apply_units / _sigmaclip_boxes / _compute_box_statistics (alone)': 'in-place helpers by contract (they write their ARGUMENT, which their only caller _calculate_stats makes a copy first); covered inside the Background2D._calculate_stats and Background2D.__init__ obligations',
+    'photutils.aperture.stats.ApertureStats.__init__': 'sky-aperture conversion constructs SkyAperture classes through a WCS',
+    'photutils.segmentation.catalog.SourceCatalog.__init__': 'setattr(self, <computed name>, ...) forces attribute reads to fall back to "anything stored on self", which taints the catalog\'s own meta dict (false alarm)',
+    'photutils.segmentation.core.Segment (whole life cycle)': '_repr_svg_ / shapely polygon dispatch; the data paths data / data_ma / make_cutout / __array__ ARE static obligations',
+    'PSFPhotometry._prepare_init_params / _prepare_fit_inputs / __call__ / make_residual_image': 'calls the user finder / grouper / fitter objects (`self.finder(...)`), recursion for NDData input',
+    'PSFPhotometry._check_init_units': 'writes a column of its ARGUMENT by contract (the caller passes init_params.copy())',
+    'PSFPhotometry._define_fit_data': 'analysis rejects: per-source cutouts are views of the data and are multiplied in place only after a conditional copy the flow-insensitive container abstraction cannot see',
+    'photutils.psf.epsf_stars.extract_stars': 'wcs.world_to_pixel dispatch and EPSFStars container classes (EPSFStar.__init__ IS a static obligation)',
+    'photutils.isophote.*': 'EllipseGeometry / EllipseSample object graph with many in-place own-state updates (documented mutators of their own object)',
+    'SourceCatalog lazy properties other than the listed input-preparation methods': 'decorator stack (@as_scalar / @use_detcat wrappers), per-source object lists',
+}
+
 # private cache containers of an object (not caller data) for single-method targets
-OWN_CACHES = {'GriddedPSFModel': ('_interpolator',)}
+OWN_CACHES = {'GriddedPSFModel': ('_interpolator',), 'LocalBackground': ('_aperture',)}
 
 
 def translate_targets(repo):
@@ -1735,9 +1834,10 @@ def translate_targets(repo):
             if kind == 'function':
                 prot, names, prog = tr.function(mod, name)
             elif kind == 'class':
-                prot, names, prog = tr.lifecycle(mod, name)
+                prot, names, prog = tr.lifecycle(mod, name, own=OWN_CACHES.get(name))
             else:
-                prot, names, prog = tr.methods(mod, name, meths, own=OWN_CACHES.get(name, ()))
+                prot, names, prog = tr.methods(mod, name, meths, own=OWN_CACHES.get(name, ()),
+                                               unprotected=UNPROTECTED.get(name, ()))
             rec.update(params=prot, names=names, prog=prog, vars=list(tr.vars), size=T.size(prog))
         except T.Untranslatable as e:
             rec['error'] = str(e)
@@ -1895,7 +1995,17 @@ def check_tables(ctx):
     from astropy.nddata import reshape_as_blocks, block_replicate
     from scipy.interpolate import RectBivariateSpline
     ns = dict(np=np, u=u, ndi=ndi, extract_array=extract_array, reshape_as_blocks=reshape_as_blocks,
-              block_replicate=block_replicate, RectBivariateSpline=RectBivariateSpline, PchipInterpolator=PchipInterpolator, pstats=pstats,
+              block_replicate=block_replicate, RectBivariateSpline=RectBivariateSpline, copy=__import__('copy'),
+              Gaussian2DKernel=__import__('astropy.convolution', fromlist=['x']).Gaussian2DKernel,
+              cKDTree=__import__('scipy.spatial', fromlist=['x']).cKDTree,
+              KDTree=__import__('scipy.spatial', fromlist=['x']).KDTree,
+              CloughTocher2DInterpolator=__import__('scipy.interpolate', fromlist=['x']).CloughTocher2DInterpolator,
+              NearestNDInterpolator=__import__('scipy.interpolate', fromlist=['x']).NearestNDInterpolator,
+              biweight_location=__import__('astropy.stats', fromlist=['x']).biweight_location,
+              biweight_scale=__import__('astropy.stats', fromlist=['x']).biweight_scale,
+              mad_std=__import__('astropy.stats', fromlist=['x']).mad_std,
+              StdDevUncertainty=__import__('astropy.nddata', fromlist=['x']).StdDevUncertainty,
+              VarianceUncertainty=__import__('astropy.nddata', fromlist=['x']).VarianceUncertainty, PchipInterpolator=PchipInterpolator, pstats=pstats,
               TRFLSQFitter=TRFLSQFitter, Gaussian1D=Gaussian1D, Gaussian2D=Gaussian2D)
     rows = [(k, r) for k, r in T.EXT.items()] + [('method.' + k, r) for k, r in T.METHODS.items()]
     bad = []
@@ -2025,6 +2135,8 @@ def static_obligations(ctx, found):
             ctx.notes.append({'broken_obligation': detail, 'why': why})
     ctx.cov['translated_spans'] = spans
     ctx.cov['ir_sizes'] = {r['name']: r.get('size') for r in recs}
+    ctx.cov['static_targets'] = [f'{r["module"]}.{r["name"]}' for r in recs]
+    ctx.cov['dynamic_only_candidates'] = DYNAMIC_ONLY
     assumed = sorted({a for r in recs for a in r['assumed']})
     unprobed = sorted({a for r in recs for a in r['unprobed']})
     ctx.assumptions += ['translator assumption: ' + a for a in assumed]
